@@ -5,13 +5,14 @@ P=$1; shift
 IDS=${*:-C05 C06 C10 C11 C14 C16 C17 C18 C20}
 cd /repo || exit 2
 if ! git diff --quiet; then echo "/repo is dirty"; exit 2; fi
-git apply "$P" 2>/dev/null || git apply -3 "$P" || { echo "PATCH-DOES-NOT-APPLY"; git checkout -q -- .; exit 2; }
+git apply "$P" 2>/dev/null || git apply -3 "$P" || { echo "PATCH-DOES-NOT-APPLY"; git checkout -q HEAD -- .; git reset -q; exit 2; }
 for id in $IDS; do
     out=$(/verif/check "$id" "${TIER:-quick}" 2>&1); rc=$?
     echo "== $id rc=$rc"
     echo "$out" | grep -E "VIOLATION|detail:|HARNESS|KNOWN" | head -6
 done
-git -C /repo checkout -q -- .
+git -C /repo checkout -q HEAD -- .
+git -C /repo reset -q
 git -C /repo status --short | head -3
 # evidence files were rewritten by runs against a changed tree: restore them
 git -C /verif checkout -q -- evidence 2>/dev/null
